@@ -527,3 +527,13 @@ def implicit_inner(ctx, shape, method, tt_solver, cplx, micro):
     ctx.check('%s: two states' % method, len(sol) == 2 and sol[0] is x0)
     meta_ok(ctx, method + ' new state', sol[1])
     ctx.eq('%s: initial value unchanged' % method, _dense_vec(ctx, x0), x0d)
+
+
+# ------------------------------------------------------------ operators and states reused after an in-place change
+@scenario('C09', 'reused_objects', lambda tier: [{'routine': r, 'order': 2} for r in ('ode.explicit_euler', 'ode.implicit_euler', 'ode.trapezoidal_rule', 'ode.hod',
+                                                                                         'ode.errors_expl_euler', 'ode.errors_impl_euler', 'ode.errors_trapezoidal')])
+def reused_objects(ctx, routine, order):
+    """an integrator / error estimator called with an operator and a state that were used in an earlier call and then changed in place still reproduces
+    the recurrence of the CURRENT operator and state: identical to the result for fresh objects holding the new values (see C06 `stateless`)"""
+    from .C06 import stateless
+    stateless(ctx, routine, order)
